@@ -4,11 +4,15 @@
     memo <unsync|once|atomic|plainonce> <sv> <t:op,t:op,…>   (op ∈ f p w)
                                                → raced=<0|1> bad=<0|1> u=<n> flag=<0|1> nU=<n> nF=<n>
     scan <hex bytes>                           → nil | u16 <hex units>            (scanBytes)
+    chain <tok tok …>  (outermost first; V sloppy function, S strict function, B block with stash, b block without; a direct
+                       eval is compiled in the innermost scope)  → run-time chain innermost first + `|target=` + `|mode=strict|sloppy`
+                                                                                   (Scopes.crun, Names.markEval/rtChain/target)
   The driver imports only the hand-written model (no Generated file, no Props/Tie): it builds and runs whatever the
   regenerated facts look like.
 -/
 import GojaModel.Base.Proto
 import GojaModel.C16.Model
+import GojaModel.C16.Scopes
 namespace GojaModel.C16.Driver
 open GojaModel.C16 GojaModel.Proto
 
@@ -73,6 +77,18 @@ def handle (line : String) : String :=
       | none => "nil"
       | some u => "u16 " ++ String.join (u.map (toHexW 4))
   | ["scan"] => "nil"
+  | "chain" :: toks =>
+    let ops : List Scopes.COp := (toks.zipIdx.map fun (tk, i) =>
+      if tk == "V" then [Scopes.COp.newScope true true i]
+      else if tk == "S" then [Scopes.COp.newScope true true i, Scopes.COp.directive true]
+      else if tk == "B" then [Scopes.COp.newScope false true i]
+      else [Scopes.COp.newScope false false i]).flatten
+    let cs := Scopes.crun [] ops
+    let strict := Scopes.enclosingStrict cs
+    let chain := Names.rtChain (Names.markEval cs)
+    let item := fun (st : Names.Stash) => (if st.isVar then "V" else "B") ++ (if st.own then "o" else "s")
+    let tgt := match Names.target chain with | some t => item t | none => "none"
+    ",".intercalate (chain.map item) ++ "|target=" ++ tgt ++ "|mode=" ++ (if strict then "strict" else "sloppy")
   | _ => "error"
 
 def main : IO Unit := lineMap handle
